@@ -54,13 +54,6 @@ theorem kstep_spec {t : HT} (op : KOp) (inv : Inv hf t) (hr : t.hash.isSome) (hv
   | erase k e =>
     exact (erase_spec hf k e inv hr hv).mono (fun tr t' h => ⟨h.1, h.2.1⟩)
 
-theorem R.Spec.with_val' {α : Type} {m : R α} {P : Tr → α → Prop} (hm : m.Spec P) :
-    m.Spec (fun tr a => P tr a ∧ m.val = .ok a) := by
-  unfold R.Spec at hm ⊢
-  cases h : m.val with
-  | ok a => rw [h] at hm; exact ⟨hm, rfl⟩
-  | error e => rw [h] at hm; exact hm
-
 /-- once no rehash is pending, keyed operations keep it that way and keep the geometry -/
 theorem krun_settled : ∀ (ops : List KOp) (t : HT), Inv hf t → t.hash.isSome → KValidFrom hf t ops →
     t.rhHash = none →
@@ -68,7 +61,7 @@ theorem krun_settled : ∀ (ops : List KOp) (t : HT), Inv hf t → t.hash.isSome
   | [], t, inv, _, _, hs => R.Spec.pure ⟨inv, hs, rfl, rfl⟩
   | op :: ops, t, inv, hr, hv, hs => by
     show (kstep hf t op >>= fun t' => krun hf t' ops).Spec _
-    refine R.Spec.bind (R.Spec.with_val' (kstep_spec hf op inv hr hv.1)) ?_
+    refine R.Spec.bind (R.Spec.with_val (kstep_spec hf op inv hr hv.1)) ?_
     rintro tr t1 ⟨⟨inv1, g⟩, hval⟩
     obtain ⟨h1, h2, h3, _⟩ := g.settled_case hs
     refine (krun_settled ops t1 inv1 g.ready (hv.2 t1 hval) h1).mono ?_
@@ -84,7 +77,7 @@ theorem krun_finishes : ∀ (ops : List KOp) (t : HT), Inv hf t → t.hash.isSom
   | [], t, _, _, _, _, h1, _ => by simp at h1
   | op :: ops, t, inv, hr, hv, hp, _, hlen => by
     show (kstep hf t op >>= fun t' => krun hf t' ops).Spec _
-    refine R.Spec.bind (R.Spec.with_val' (kstep_spec hf op inv hr hv.1)) ?_
+    refine R.Spec.bind (R.Spec.with_val (kstep_spec hf op inv hr hv.1)) ?_
     rintro tr t1 ⟨⟨inv1, g⟩, hval⟩
     rcases g.pending_case hp with ⟨a, b, c⟩ | ⟨a, b, c, d, e, f⟩
     · refine (krun_settled hf ops t1 inv1 g.ready (hv.2 t1 hval) a).mono ?_
